@@ -156,6 +156,8 @@ var tl1Prims = map[string]primSpec{
 // method-name suffixes that identify the role of a generated function.
 var roleSuffixes = []string{
 	"ReadTL1Boxed", "WriteTL1BoxedGeneral", "WriteTL1Boxed", "ReadTL1", "WriteTL1General", "WriteTL1",
+	"ReadResultTL1WriteResultJSON", "ReadResultJSONWriteResultTL1", "ReadResultTL1WriteResultTL2", "ReadResultTL2WriteResultTL1", "ReadResultTL2WriteResultJSON", "ReadResultJSONWriteResultTL2",
+	"FillRandomResultTL1", "calculateLayoutResult", "writeResultTL2",
 	"ReadResultTL1", "WriteResultTL1", "ReadResultTL2", "WriteResultTL2", "ReadResultJSON", "WriteResultJSON", "writeResultJSON",
 	"InternalReadTL2", "InternalWriteTL2", "CalculateLayout", "ReadTL2", "WriteTL2",
 	"ReadJSONGeneral", "ReadJSON", "WriteJSONGeneral", "WriteJSONOpt", "WriteJSON",
